@@ -765,6 +765,13 @@ fn minimise_and_write(scn: &dyn DynScenario, opts: &BatchOpts, f: FoundViolation
         let file = write_replay(scn, opts, &f, &f.plan, &[], &[], &f.violation, &original, None);
         return (file, f.violation.clone());
     }
+    if class == "double-drop" {
+        // the oracle saw a destructor run twice: the memory behind it is freed twice as well, and
+        // re-executing candidates in this (parent) process would abort it before the report
+        let original = json!({"note": "not minimised: re-executing a double free in the reporting process would abort it"});
+        let file = write_replay(scn, opts, &f, &f.plan, &f.preemptions, &f.faults, &f.violation, &original, None);
+        return (file, f.violation.clone());
+    }
     if class == "crash" {
         // re-executing in this process would kill it; the replay command re-runs the worker's
         // sequence of runs in a child process
